@@ -2018,9 +2018,9 @@ impl Kanata {
                                     PRESSED_KEYS.lock().clear();
                                 }
                             }
-                            // `now` is 1ms in the past so that this iteration ticks once.
-                            let ms_blocked =
-                                now.saturating_duration_since(k.last_tick).as_millis() + 1;
+                            // `now` is 1ms in the past: that millisecond is covered by the tick
+                            // of this iteration.
+                            let ms_blocked = now.saturating_duration_since(k.last_tick).as_millis();
                             k.account_time_blocked(ms_blocked);
                             k.last_tick = now;
 
